@@ -5,7 +5,7 @@ PROPERTIES = {
         modules=["rvltl", "temporal", "temporal_syntax"],
         # "from the step the statement takes effect to the end of its scenario": the monitors must see the last state,
         # i.e. DynamicScenario._step updates the requirement monitors before the time-limit stop (contract written for C12)
-        borrow=dict(modules=["simulation_order"], match=["DynamicScenario._step", "DynamicScenario._stop[order]"]),
+        borrow=dict(modules=["simulation_order", "dyn_requirements"], match=["DynamicScenario._step", "DynamicScenario._stop[order]", "DynamicScenario._start[requirement monitors]", "DynamicScenario._compileRequirements"]),
         level="proof",
         claim="temporal requirements: (a) the dependency's monitors (rv_ltl, source on disk, checked not trusted) refine the four-valued finite-trace "
         "reference semantics sem4 (strong next / until) class by class over abstract children and traces of symbolic length -- truthiness exact, "
@@ -13,7 +13,8 @@ PROPERTIES = {
         "trace space; (b) Scenic's proposition layer maps every operator to the rv_ltl node of the same operator with the operands in source order, "
         "enumerates every atom once, evaluates every atomic closure exactly once per step in the current step and feeds the monitor one truth value per "
         "atom; (c) the initial scene is rejected iff the step-0 verdict is FALSE, a running simulation iff some verdict of the step is FALSE, a finished "
-        "scenario iff some last verdict is falsy; (d) requirement syntax is compiled to the factory calls of the same operators with unique increasing atom ids",
+        "scenario iff some last verdict is falsy; (d) requirement syntax is compiled to the factory calls of the same operators with unique increasing atom ids and wrapped unchanged (tree, line, name, probability) into the `require` call; "
+        "(e) every requirement-like statement of a scenario is compiled once with its own syntax into the list of its kind, and at start every registered temporal requirement -- and no other -- gets one monitor, first updated in the scenario's first step",
         note="per-class monitor contracts are for all trace lengths and all child values (UntilMonitor with two loop invariants over an uninterpreted running "
         "minimum, used through definition/lemma instances; the lemmas are proved by induction in UntilMonitor._evaluate_at[lemma]); the sugar monitors, "
         "Monitor.update, the end-to-end families and the Scenic-side tree contracts are bounded (stated per contract in `note`); "
@@ -30,13 +31,14 @@ PROPERTIES = {
             "sem4-vs-sat lemmas: 235 formulas, traces of length <= 4 with all extensions up to length 4",
             "Scenic proposition layer end to end: 11 formulas (every operator), all traces of length <= 3",
             "And/Or monitors and constructors: 0..3 operands; DynamicScenario._step/_stop: 3 / 2 requirement monitors",
-            "PropositionTransformer: 21 requirement sources parsed by the real parser",
+            "PropositionTransformer: 21 requirement sources parsed by the real parser; createRequirementLike: 7 requirement statements (name / probability / earlier requirements / first atom id varied)",
+            "DynamicScenario._start[requirement monitors]: 0-3 registered requirements + one of another scenario; DynamicScenario._compileRequirements: 5 declaration lists covering the 7 kinds of requirement-like statements",
         ],
         not_reached=[
             "DynamicRequirement.__init__.closure (veneer.executeInScenario context manager around monitor.update()); PendingRequirement.compile.closure is under contract for C01",
-            "DynamicScenario._start (turns the registered requirements into monitors) and _compileRequirements (which requirements belong to which scenario; sub-scenario nesting)",
+            "Scenario.generate: binding of the compiled `require` statements to the sample (BoundRequirement) and Scene.__init__ (scene.temporalRequirements); DynamicScenario._bindTo -- exercised only by the replay drivers of DynamicScenario._compileRequirements / _start[requirement monitors]",
             "grammar-level precedence of the temporal operators (scenic.gram, C10; F31)",
-            "ScenicToPythonTransformer.createRequirementLike (wrapping of the transformed proposition into the veneer.require call)",
+            "ScenicToPythonTransformer.visit_Require (probability range check) and the expression compiler applied to the transformed proposition tree (modelled as the identity in createRequirementLike; C09/C10)",
         ],
     ),
 }
